@@ -1,7 +1,8 @@
 """C11 — per-property knobs of ./check (see DESIGN.md §6 C11, notes/C11.md)."""
 THEOREMS_TIED = ["Rustic.Props.C11.cursor_walk_refines_lookup", "Rustic.Props.C11.parent_eq_full",
                  "Rustic.Props.C11.reuse_requires_indexed", "Rustic.Props.C11.missing_blob_forces_reread",
-                 "Rustic.Props.C11.tree_iterator_sorted_source_queriesOK", "Rustic.Props.C11.parent_eq_full_sorted_source"]
+                 "Rustic.Props.C11.tree_iterator_sorted_source_queriesOK", "Rustic.Props.C11.parent_eq_full_sorted_source",
+                 "Rustic.Props.C11.changed_stat_never_matches", "Rustic.Props.C11.subsecond_change_never_matches"]
 
 TRUSTED = [
     "hand-written models lean/Rustic/Model/{Tree,Parent,Archive}.lean of archiver/parent.rs, archiver/tree.rs, archiver/tree_archiver.rs, archiver/file_archiver.rs, archiver.rs",
@@ -16,12 +17,12 @@ ASSUMPTIONS = [
 ]
 RULE = ("ops from harness/src/c11.rs, one splitmix64 PRNG (VERIF_SEED): `proc` = random parent forests (0-3 roots, depth<=2, shared/missing subtrees, sorted and unsorted, "
         "duplicate names, relabelled id order) x item streams derived by mutation (mtime/size/ctime/ctime-none/inode/type change, removed, added, unbalanced EndTree) x "
-        "ignore_ctime/ignore_inode x random index; `e2e` = real backup histories (see notes), preceded on every run by 64 directed histories at the two borders of the property: "
+        "ignore_ctime/ignore_inode x random index; time stamps are full (second, nanosecond) pairs encoded as secs + (nanos << 32): stamps equal to the nanosecond, differing only in the nanoseconds and differing only in the seconds all occur (1/3 of the mtime/ctime mutations change the nanoseconds only); `e2e` = real backup histories (see notes), preceded on every run by 64 directed histories at the two borders of the property: "
         "a file rewritten in place with equal size and mtime (ctime the only witness) under all 8 combinations of ignore_ctime/ignore_inode/skip_if_unchanged, and an unchanged multi-chunk "
-        "file of which only some chunks are still indexed (first chunk surviving, later one gone; first gone; all gone). Non-trivial = at least one Matched or NotMatched answer / at least one reused or re-read file; "
+        "file of which only some chunks are still indexed (first chunk surviving, later one gone; first gone; all gone), and 80 sub-second histories (a same-size in-place rewrite whose mtime and/or ctime differ from the parent's only in the nanoseconds — +1 ns, -1 ns, across .999999999, +0.5 s —, next second with equal nanoseconds, unchanged to the nanosecond; flags 000/100/010/001); 2/3 of the random e2e histories get sub-second stamps (changed stamps moved into the same second as the parent's with probability 1/2). Non-trivial = at least one Matched or NotMatched answer / at least one reused or re-read file; "
         "distinct by hash of (op, observation).")
 EXPLANATION = ("Theorems: TreeIterator over a depth-first, name-sorted source yields exactly the bracketed walk and queries names in non-decreasing order per level; cursor walk of Parent refines lookup-by-name under sortedness (never skips an equal name; several parents; directory stack); parent-based root tree id = forced "
-               "root tree id for every faithful parent; reuse only if all blobs indexed, else re-read; stat/type change never matches. Correspondence: per item the real Parent::process "
+               "root tree id for every faithful parent; reuse only if all blobs indexed, else re-read; stat/type change never matches, time stamps compared to the nanosecond (subsecond_change_never_matches). Correspondence: per item the real Parent::process "
                "answer (Matched/NotMatched/NotFound, matched subtree, content put into the node) equals the model's; end-to-end: real parent-based vs forced backups.")
 
 
